@@ -10,7 +10,7 @@ FUNCTIONS = [
     "batchie.scoring.gaussian_dbal.dbal_fast_gauss_scoring_vectorized (triple selection part)",
 ]
 BOUNDS = {
-    "quick": "loop-invariant lemmas: n and index unbounded, k=1..4; enumeration: every n<=10, k<=4 (and k=0, k>n) and n=66, k=2: index symbolic over [0,C(n,k)); scoring use: n_thetas<=5 with every draw of rng.choice, and n_thetas 12/30/150 (default budget) with an adversarial generator",
+    "quick": "loop-invariant lemmas: n and index unbounded, k=1..4; enumeration: every n<=10, k<=4 (and k=0, k>n) and n=66, k=2: index symbolic over [0,C(n,k)); scoring use: n_thetas<=5 with every draw of rng.choice, and n_thetas 12/30/150 (default budget) and 40 (budget 20000 > C(40,3)) with an adversarial generator",
     "thorough": "every n<=26 with k<=4, n<=40 with k=3, n<=80 with k<=2; scoring use: n_thetas<=5 with every draw, adversarial generator up to n_thetas=600; lemmas as in quick",
 }
 ASSUMPTIONS = [
@@ -43,7 +43,8 @@ def configs(tier, seed):
         out.append(dict(name="triples nt=%d max=%d" % (nt, mc), h="triples", nt=nt, max_combos=mc))
     # sparse regimes (triple space far larger than the budget, production sizes included) with an adversarial generator:
     # it returns the worst sequence its contract allows (all-equal indices whenever it is asked to draw with replacement)
-    for nt, mc in ((12, 2), (30, 7), (150, 5000)) + (((300, 5000), (600, 5000)) if tier != "quick" else ()):
+    # (40, 20000): a budget above the default that covers all C(40,3) = 9880 triples: every one of them must be used
+    for nt, mc in ((12, 2), (30, 7), (150, 5000), (40, 20000)) + (((300, 5000), (600, 5000), (60, 40000), (45, 9000)) if tier != "quick" else ()):
         out.append(dict(name="triples nt=%d max=%d adversarial generator" % (nt, mc), h="triples", nt=nt, max_combos=mc, adversarial=True))
     return out
 
